@@ -146,6 +146,26 @@ func (e *c06sEnv) rstop(id int) {
 	}
 }
 
+// c06sBadClose wraps the store's Checkpointer (an interface field): after a checkpoint that
+// succeeded it puts a directory where the staged WAL's checksum sidecar goes, so that the
+// store's walWriter.Close() fails — an injected I/O error on the staging directory.
+type c06sBadClose struct {
+	real Checkpointer
+	dir  string
+	on   bool
+}
+
+func (c *c06sBadClose) Checkpoint(w io.Writer, timeout time.Duration) (*sql.CheckpointManagerMeta, int64, error) {
+	m, n, err := c.real.Checkpoint(w, timeout)
+	if err == nil && w != nil && c.on {
+		wals, _ := filepath.Glob(filepath.Join(c.dir, "*.wal"))
+		for _, p := range wals {
+			os.Mkdir(p+".crc32", 0o755)
+		}
+	}
+	return m, n, err
+}
+
 func c06sDump(t *testing.T, s *Store) string {
 	var b bytes.Buffer
 	if err := s.db.Dump(&b); err != nil {
@@ -194,6 +214,8 @@ func c06sSchedule(t *testing.T, rep *vfReport, r *vfRng, rounds int) (ops, impl 
 	if err := s.Snapshot(0); err != nil {
 		t.Fatalf("first snapshot: %v", err)
 	}
+	inject := &c06sBadClose{real: s.checkpointer, dir: s.walStagingDir}
+	s.checkpointer = inject
 	ro, err := dbsql.Open("rqlite-sqlite3", sql.MakeDSN(s.dbPath, sql.ModeReadOnly, false, true))
 	if err != nil {
 		t.Fatal(err)
@@ -239,13 +261,23 @@ func c06sSchedule(t *testing.T, rep *vfReport, r *vfRng, rounds int) (ops, impl 
 			rep.Count("write-" + kind)
 		}
 		before := c06sStagingFiles(s)
+		due, _ := s.snapshotStore.DueNext()
+		fullBranch := due.IsFull()
+		// sometimes the staged WAL cannot be made durable after the checkpoint succeeded
+		inject.on = !fullBranch && r.Chance(25)
 		err := s.Snapshot(0)
+		injected := inject.on
+		inject.on = false
 		after := c06sStagingFiles(s)
 		kind := "none"
 		if err != nil {
 			switch {
 			case strings.Contains(err.Error(), "database checkpoint busy"):
 				kind = "busy"
+			case strings.Contains(err.Error(), "failed to write CRC32 sum file"):
+				kind = "closefailed"
+			case strings.Contains(err.Error(), "checkpoint did not"):
+				kind = "notcomplete"
 			default:
 				kind = "other:" + strings.ReplaceAll(err.Error(), " ", "_")
 			}
@@ -255,7 +287,25 @@ func c06sSchedule(t *testing.T, rep *vfReport, r *vfRng, rounds int) (ops, impl 
 		if walEmpty {
 			e.walSeen, e.nFrames = false, 0
 		}
-		emit("captureb", fmt.Sprintf("err=%s kept=%v walempty=%v", kind, err == nil, walEmpty))
+		dueAfter, _ := s.snapshotStore.DueNext()
+		switch {
+		case fullBranch:
+			emit("fullb", fmt.Sprintf("err=%s walempty=%v", kind, walEmpty))
+			rep.Count("snapshot-full-branch-" + kind)
+		case injected:
+			emit("captureclosefailb", fmt.Sprintf("err=%s kept=%v walempty=%v fulldue=%v", kind, err == nil, walEmpty, dueAfter.IsFull()))
+			if kind == "closefailed" {
+				rep.Count("snapshot-close-failed-after-checkpoint")
+				// the frames are in the database and in no segment: only a full snapshot repairs that
+				if !dueAfter.IsFull() {
+					rep.Fail("staging-failure-after-checkpoint-did-not-request-full-snapshot",
+						fmt.Sprintf("after %v: walWriter.Close failed after a successful checkpoint, staging=%v, due next=%v", hist, after, dueAfter),
+						map[string]interface{}{"history": hist})
+				}
+			}
+		default:
+			emit("captureb", fmt.Sprintf("err=%s kept=%v walempty=%v", kind, err == nil, walEmpty))
+		}
 		hist = append(hist, "S:"+kind)
 		switch {
 		case err != nil:
